@@ -208,6 +208,10 @@ func (ipcp *IPCPStateMachine) Down() {
 	// Release allocated IP
 	if ipcp.config.IPPool != nil && ipcp.negotiated.PeerIP != nil {
 		ipcp.config.IPPool.Release(ipcp.sessionID)
+		// The address is back in the pool and may be handed to another session:
+		// forget it, so that the next Up allocates again instead of acknowledging it.
+		ipcp.config.PeerIP = nil
+		ipcp.negotiated.PeerIP = nil
 	}
 
 	switch ipcp.state {
